@@ -256,8 +256,14 @@ pub fn words(max: usize) -> BoxedStrategy<Vec<String>> {
     let word = prop_oneof![
         5 => (0..VOCAB.len()).prop_map(|i| VOCAB[i].to_string()),
         1 => generated,
-    ];
-    prop::collection::vec(word, 1..=max).boxed()
+    ]
+    .boxed();
+    // mostly up to `max` words; rarely up to 400 (more than 64 lines)
+    prop_oneof![
+        60 => prop::collection::vec(word.clone(), 1..=max),
+        1 => gen::log_count(400).prop_flat_map(move |n| prop::collection::vec(word.clone(), n..=n)),
+    ]
+    .boxed()
 }
 
 impl Property for P {
